@@ -5,14 +5,4 @@ NOTES = ("Single entry point ./check <id> --tier quick|thorough. Every check: (A
          "implementation producing concrete replays; known findings in known_findings.json. See DESIGN.md.")
 NOT_YET = "not yet built in this session (design in DESIGN.md section 7); not claimed until its theorem, correspondence and oracle exist"
 NOT_APPLICABLE = {}
-CLAIMED = {
- "C19": {
-  "technique": "Coq proof over translator-generated operator tables + exhaustive model/implementation correspondence",
-  "text": "All 10 comparison operators on all 11x11 Level/LevelFilter pairs, set_max/current round trip, Display/FromStr round trip and the accepted "
-          "language of FromStr for ALL byte strings are Coq theorems about an interpreter of data extracted from metadata.rs on every run "
-          "(finite cases by kernel computation over the complete domain, the string language by induction). The real operators/parsers are "
-          "run on the complete finite domain and a string corpus and compared with the model and with the spec order.",
-  "note": "Trusted: Coq kernel (+vm_compute), translators/levels.py shape recognition (fails closed), harness h_levels.rs, std's usize::from_str / "
-          "eq_ignore_ascii_case / Ord::min,max (modelled). Known finding F13 (empty string parses as ERROR) is excluded by hypothesis and refuted by C19_F13_refuted.",
- },
-}
+CLAIMED = {}  # filled from driver/claims/Cxx.json: {"technique":..., "text":..., "note":...}
